@@ -23,6 +23,8 @@ func multiTemplates(ref string) [][]string {
 		{"mask", "--pos", "0,2", "--ref-seq", ref},
 		{"mask", "--pos", "2,0,4"},
 		{"mask", "--unique", "--at-most", "1"},
+		{"mask", "--unique", "--at-most", "3"},
+		{"mask", "--unique", "--at-most", "4", "--replace", "MAJ"},
 		{"mask", "--unique", "--ref-seq", ref},
 		{"mask", "-s", "1", "-l", "2", "--ref-seq", ref, "--no-ref"},
 		{"mask", "--replace", "MAJ", "-s", "0", "-l", "5"},
@@ -55,9 +57,16 @@ func runCliMulti(c *mon.Case) {
 		L := r.Range(8, 24)
 		base := r.Str(L, "ACGT")
 		var sb strings.Builder
-		fmt.Fprintf(&sb, "   %d   %d\n", n, L)
-		rows := make([]string, n)
-		for i := 0; i < n; i++ {
+		na := n
+		if r.Bool() {
+			na = r.Range(2, n) // alignments of different heights in one file (the first ones often the smallest)
+			if a == 0 {
+				na = 2
+			}
+		}
+		fmt.Fprintf(&sb, "   %d   %d\n", na, L)
+		rows := make([]string, na)
+		for i := 0; i < na; i++ {
 			b := []byte(base)
 			for j := range b {
 				if r.Chance(0.15) {
